@@ -84,6 +84,28 @@ def subharmonic_screen_flat(r0, N, delta, L0, l0, seed):
         lo = lo + SH
     lo = lo.real - lo.real.mean()
     return lo + hi
+
+
+def subharmonic_screen_indexed(r0, N, delta, L0, l0, seed):
+    # the same sum again, the nine frequencies of each grid numbered 0..8 in row-major order
+    R = numpy.random.default_rng(seed)
+    hi = fft_screen(r0, N, delta, L0, l0, R)
+    c = numpy.arange(-N / 2., N / 2.) * delta
+    x, y = numpy.meshgrid(c, c)
+    lo = numpy.zeros((N, N))
+    for p in range(1, 4):
+        del_f = 1. / (3 ** p * N * delta)
+        k = numpy.arange(-1, 2)
+        fx, fy = numpy.meshgrid(k * del_f, k * del_f)
+        P = psd(fx ** 2 + fy ** 2, r0, L0, l0)
+        P[1, 1] = 0
+        cn = (R.normal(size=(3, 3)) + 1j * R.normal(size=(3, 3))) * numpy.sqrt(P) * del_f
+        SH = numpy.zeros((N, N))
+        for q in range(9):
+            SH += cn.ravel()[q] * numpy.exp(1j * 2 * numpy.pi * (fx.ravel()[q] * x + fy.ravel()[q] * y))
+        lo = lo + SH
+    lo = lo.real - lo.real.mean()
+    return lo + hi
 '''
 
 
@@ -133,7 +155,8 @@ def run(rep, tier, root=None):
 
     I = Interp(ix, int_transparent=True)
     IO = Interp(ix, int_transparent=True)
-    r0, N, delta, L0, l0, seed = [Rat.sym(x) for x in ("r0", "N", "delta", "L0", "l0", "seed")]
+    r0, N, delta, L0, l0 = [Rat.sym(x, ("scalar",)) for x in ("r0", "N", "delta", "L0", "l0")]      # scalars by the signature the property states
+    seed = Rat.sym("seed")
 
     results = {}
     for name, oname in (("ft_phase_screen", "fft_screen"), ("ft_sh_phase_screen", "subharmonic_screen")):
@@ -144,7 +167,7 @@ def run(rep, tier, root=None):
             raise AnalysisError("%s: signature changed: %s" % (f.fq, f.params))
         fixed = {p: None for p in f.params[5:]}
         fixed["seed"] = seed
-        args = I.symbolic_args(f, fixed=fixed)
+        args = I.symbolic_args(f, flags={p: ("scalar",) for p in want_params}, fixed=fixed)
         rets = I.returns(f, args)
         if len(rets) != 1:
             rep.unknown("P0.law", f.fq, "expected a single path with FFT=None, found %d" % len(rets), f.where())
@@ -159,10 +182,11 @@ def run(rep, tier, root=None):
         cv, cw = canon(v), canon(wo)
         results[name] = (f, v, cv)
         alt_ok = False
-        if not same_value(cv, cw) and oname + "_flat" in ix.module(om.name).funcs:
-            # the sum over the nine frequencies of a 3 x 3 grid may equally be written as one flat row-major loop
-            wo2 = IO.returns(ix.func(om.name, oname + "_flat"), [r0, N, delta, L0, l0, seed])[0][1]
-            alt_ok = same_value(cv, canon(wo2))
+        for alt in ("_flat", "_indexed"):
+            if not alt_ok and not same_value(cv, cw) and oname + alt in ix.module(om.name).funcs:
+                # the sum over the nine frequencies of a 3 x 3 grid may equally be written as one flat row-major loop
+                wo2 = IO.returns(ix.func(om.name, oname + alt), [r0, N, delta, L0, l0, seed])[0][1]
+                alt_ok = same_value(cv, canon(wo2))
         if same_value(cv, cw) or alt_ok:
             rep.ok("P0.law", f.fq + " == oracle " + oname, "normal forms identical (%d chars)" % len(nf(cv, 10 ** 6)))
         else:
